@@ -28,7 +28,7 @@ func c15Gen(seed uint64, run int, tier string) *Case {
 	ms := r.Pick(256, 512, 1024, 8192, 65536)
 	c.Cfg["msize"] = int64(ms)
 	c.Cfg["dotu"] = int64(r.Intn(2))
-	n := r.Pick(0, 1, 2, 3, 7, 50)
+	n := r.Pick(0, 1, 2, 3, 7, 50, 50, 130)
 	if tier == "thorough" && r.Pct(10) {
 		n = r.Pick(1000, 3000)
 	}
@@ -144,6 +144,9 @@ func c15Exec(x *Ctx) {
 			os.Symlink("nope", p) // dangling (targets are short: in 9P2000.u they are part of the entry)
 		case 6:
 			os.Symlink([]string{"lp1", "..", "lp2", "."}[i/10%4], p) // into a loop, to the parent, to the directory itself
+		case 7:
+			os.WriteFile(p, fileContent(n, i%7*13), 0o640)
+			os.Chown(p, 64242, 64243) // owner and group without a name on this host
 		case 5:
 			// a further name for an earlier file: hard links are entries like any other
 			if err := os.Link(filepath.Join(dir, names[i-1]), p); err != nil {
@@ -266,6 +269,24 @@ func c15Exec(x *Ctx) {
 				c15List(x, p, func(int) int { return cnt }, want, fmt.Sprintf("fixed count %d (largest entry %d)", cnt, largest), dotu, -1)
 				x.Probe("fixed-count-listing")
 			case 1:
+				if k := []int{63, 64, 65, 127, 128, 129}[sel%6]; len(sizes) > k && sel%2 == 0 {
+					// the first read asks for exactly the first k entries (a reply that is filled to the last byte),
+					// the rest is read generously
+					cum := 0
+					for _, sz := range sizes[:k] {
+						cum += sz
+					}
+					if cum <= maxc {
+						c15List(x, p, func(i int) int {
+							if i == 0 {
+								return cum
+							}
+							return maxc
+						}, want, fmt.Sprintf("first read of exactly %d entries (%d bytes), then generous counts", k, cum), dotu, -1)
+						x.Probe("first-reply-filled-exactly-by-64ish-entries")
+						break
+					}
+				}
 				c15List(x, p, func(int) int { return minInt(maxc, largest+rt.Choose(2*largest+1)) }, want, "random counts >= largest entry", dotu, -1)
 			case 2:
 				// stop after some replies, then start again at offset 0
